@@ -15,6 +15,9 @@ type c02Case struct {
 	N2 int   `json:"n2"`
 	T  []int `json:"t"` // null = nil (no ties)
 	Us []F64 `json:"us"`
+	// More: further tie vectors for the same (N1,N2), evaluated on the same Us directly after T in
+	// the same process: a result must not depend on which distributions were evaluated before
+	More [][]int `json:"more,omitempty"`
 }
 
 func c02Run(raw []byte) (*Line, error) {
@@ -45,35 +48,86 @@ func c02Run(raw []byte) (*Line, error) {
 	if len(c.Us) > 20000 {
 		return nil, fmt.Errorf("too many u")
 	}
-	var T []int
-	if c.T != nil {
-		T = append([]int{}, c.T...)
+	if len(c.More) > 2000 || (len(c.More)+1)*len(c.Us) > 400000 {
+		return nil, fmt.Errorf("case too large")
 	}
-	d := stats.UDist{N1: c.N1, N2: c.N2, T: T}
+	for _, t := range c.More {
+		s := 0
+		for _, x := range t {
+			if x < 1 {
+				return nil, fmt.Errorf("bad tie count")
+			}
+			s += x
+		}
+		if len(t) < 2 || s != c.N1+c.N2 {
+			return nil, fmt.Errorf("bad tie vector")
+		}
+	}
+	// All distributions of the case are evaluated in ONE process, twice: first point-major (for each
+	// u every distribution in turn: neighbours in time are different distributions at the same
+	// point), then distribution-major; the first pass is what the model is compared with, and any
+	// value of the second pass that is not bit-identical to the first makes the block fail (status 5):
+	// a result must not depend on what was evaluated before.
+	ts := append([][]int{c.T}, c.More...)
+	nb := len(ts)
+	ds := make([]stats.UDist, nb)
+	copies := make([][]int, nb)
+	for b, t := range ts {
+		if t != nil {
+			copies[b] = append([]int{}, t...)
+		}
+		ds[b] = stats.UDist{N1: c.N1, N2: c.N2, T: copies[b]}
+	}
+	pm := make([][]float64, nb)
+	cd := make([][]float64, nb)
+	status := make([]int, nb)
+	for b := range ts {
+		pm[b] = make([]float64, len(c.Us))
+		cd[b] = make([]float64, len(c.Us))
+	}
+	for i, u := range c.Us {
+		for b := range ts {
+			d := ds[b]
+			pan, _ := catch(func() { pm[b][i] = d.PMF(float64(u)) })
+			pan2, _ := catch(func() { cd[b][i] = d.CDF(float64(u)) })
+			if pan || pan2 {
+				status[b] = 2
+			}
+		}
+	}
+	if nb > 1 {
+		for b := range ts {
+			d := ds[b]
+			for i, u := range c.Us {
+				var p2, c2 float64
+				catch(func() { p2 = d.PMF(float64(u)); c2 = d.CDF(float64(u)) })
+				if status[b] == 0 && (math.Float64bits(p2) != math.Float64bits(pm[b][i]) || math.Float64bits(c2) != math.Float64bits(cd[b][i])) {
+					status[b] = 5
+				}
+			}
+		}
+	}
 	l := &Line{}
-	l.I(2).I(c.N1).I(c.N2).B(c.T == nil).Is(c.T).I(len(c.Us))
-	status := 0
-	for _, u := range c.Us {
-		var p, cdf float64
-		pan, _ := catch(func() { p = d.PMF(float64(u)) })
-		pan2, _ := catch(func() { cdf = d.CDF(float64(u)) })
-		if pan || pan2 {
-			status = 2
+	l.I(2).I(nb)
+	for b, t := range ts {
+		l.I(c.N1).I(c.N2).B(t == nil).Is(t).I(len(c.Us))
+		for i, u := range c.Us {
+			l.F(float64(u)).F(pm[b][i]).F(cd[b][i])
 		}
-		l.F(float64(u)).F(p).F(cdf)
-	}
-	var lo, hi, st float64
-	pan, _ := catch(func() { lo, hi = d.Bounds(); st = d.Step() })
-	if pan {
-		status = 2
-	}
-	// the tie vector is an input: it must not have been modified
-	for i := range c.T {
-		if T[i] != c.T[i] {
-			status = 3
+		var lo, hi, st float64
+		d := ds[b]
+		pan, _ := catch(func() { lo, hi = d.Bounds(); st = d.Step() })
+		if pan && status[b] == 0 {
+			status[b] = 2
 		}
+		// the tie vector is an input: it must not have been modified
+		for i := range t {
+			if copies[b][i] != t[i] && status[b] == 0 {
+				status[b] = 3
+			}
+		}
+		l.F(lo).F(hi).F(st).I(status[b])
 	}
-	l.F(lo).F(hi).F(st).I(status)
 	return l, nil
 }
 
@@ -249,6 +303,26 @@ func c02Gen(tier string, rng *rand.Rand, emit func(interface{})) {
 		}
 		us := append(c02Grid(rng, n1, n2, pts), c02OffGrid(rng, n1, n2, 4)...)
 		emit(c02Case{N1: n1, N2: n2, T: t, Us: us})
+	}
+	// (c) extreme tie shapes, all in one process and in one case
+	c02Extreme(tier, rng, emit)
+}
+
+// c02Extreme emits, per (n1,n2), ONE case holding every extreme tie shape (one huge group, in every
+// position, next to 1..3 groups of size <= 3) evaluated back to back on a shared grid.
+func c02Extreme(tier string, rng *rand.Rand, emit func(interface{})) {
+	shapes := [][2]int{{12, 23}}
+	pts := 26
+	if tier == "thorough" {
+		shapes = [][2]int{{12, 23}, {17, 18}, {25, 25}, {10, 25}, {20, 22}, {3, 40}}
+		pts = 1 << 30
+	}
+	for _, sh := range shapes {
+		n1, n2 := sh[0], sh[1]
+		all := extremeTies(n1 + n2)
+		rng.Shuffle(len(all), func(i, j int) { all[i], all[j] = all[j], all[i] })
+		us := c02Grid(rng, n1, n2, pts)
+		emit(c02Case{N1: n1, N2: n2, T: all[0], Us: us, More: all[1:]})
 	}
 }
 
